@@ -186,6 +186,9 @@ pub struct KeyGen {
     /// burst of queries meets many expired nodes at once, deep inside the tree
     pub forest: u8, // 0 = off, 1 = building, 2 = burst
     pub forest_burst: u32,
+    /// every entry of the forest expires at one of the three instants (mass expiry: the whole
+    /// tree is gone after the landing, the arena keeps its high-water mark)
+    pub forest_short_only: bool,
     /// percent of the jumps that go (nearly) to the end of the time line
     pub far_jump_pct: u64,
     /// C12: make sure the run contains a clear (at this generated step)
@@ -270,6 +273,7 @@ impl KeyWorld {
             clear_after_fill: false,
             forest: 0,
             forest_burst: 0,
+            forest_short_only: false,
             far_jump_pct: 3,
             forced_clear_at: None,
             generated: 0,
@@ -325,9 +329,10 @@ impl KeyWorld {
             g.fill_target = Some(Self::draw_fill_target(cfg, r));
             g.clear_after_fill = r.chance(1, 3);
         }
-        if r.chance(1, 6) && cfg.universe >= 64 {
+        if (r.chance(1, 6) || (cfg.has(O_CAP) && r.chance(1, 2))) && cfg.universe >= 64 {
             g.forest = 1;
-            g.fill_target = Some(*r.pick(&[20usize, 30, 40, 60, 100, 200]));
+            g.fill_target = Some(*r.pick(&[20usize, 30, 40, 60, 100, 150, 200, 300]));
+            g.forest_short_only = r.chance(1, 3);
             g.clear_after_fill = false;
         }
         // a run in which nothing ever expires (expiration = "never" = i32::MAX), with the clock
@@ -1114,6 +1119,9 @@ impl KeyWorld {
     fn pick_exp(&mut self, r: &mut Rng) -> i32 {
         let t = self.now;
         if self.gen.forest == 1 {
+            if self.gen.forest_short_only {
+                return t.saturating_add(1 + r.below(3) as i32);
+            }
             return match r.below(8) {
                 0 | 1 | 2 => t.saturating_add(1),
                 3 | 4 => t.saturating_add(2),
@@ -1364,7 +1372,8 @@ impl World for KeyWorld {
                 self.gen.forest = 2;
                 self.gen.forest_burst = 12 + r.below(20) as u32;
                 self.gen.events.clear();
-                return Op::Tick { dt: 1 + r.below(3) as i32 };
+                let dt = if self.gen.forest_short_only && r.chance(1, 2) { 3 } else { 1 + r.below(3) as i32 };
+                return Op::Tick { dt };
             }
             if self.gen.clear_after_fill {
                 // "fill, clear, fill again": the second fill is relative to the arena as the clear left it
